@@ -12,9 +12,7 @@ def seeded_table():
         det = m.get("detected_by"); det = "; ".join(det) if isinstance(det, list) else str(det or "")
         det = det.replace("|", "/")
         st = (m.get("strengthening") or "").replace("|", "/")
-        if name == "C10-not-operand-drops-inside-braces":
-            res = "**not detected** (outside the documented freedoms the check explores, see below)"
-        elif m.get("initially_missed"):
+        if m.get("initially_missed"):
             res = "after strengthening: " + st[:200]
         else:
             res = "directly"
